@@ -115,6 +115,15 @@
     in `all`, the '=' is included only when it follows the name without white space and no value follows.
   * with POptTokSpTermF the offset returned is that of the last white-space byte, not of the token.
   Model tied to parse_params.go / parse_uri_params.go / parse_uri_hdrs.go by the correspondence check.
+  SCOPE NOTES after the second sceptical review (AB1): "every buffer" — `tokparam_trichotomy`, the `*_stop_iff`,
+  `*_badChar_iff`, `*_outcome`, `*_verdicts` and the list `*_any_schedule` theorems carry the documented `b.size ≤ 65535`;
+  all stability / schedule theorems exclude the end-of-input option; `uri*_any_schedule` need the offset inside the first
+  buffer; "new object" is the zero object. `tokparam_badChar_iff`, `tokparam_verdicts(_desc)`, `tokparam_badChar_local`,
+  `tokparam_badChar_append` and `tokparam_badChar_prefix_extends` are unrestricted. `PVMore` (the MoreBytes description) is a
+  NECESSARY condition only: it pins neither the returned offset nor excludes the end-of-input option (for `"a  "` it holds
+  at 1, 2 and 3; the model returns 1) — the statement "MoreBytes is reported at the start of the unfinished white space"
+  is backed by tests, not by a theorem. `*_extends` state a bare existence of the completed buffer; that at most five /
+  six bytes are appended is in their proofs, not in their statements.
 -/
 import Sipsp.Proofs.ParamSpec
 import Sipsp.Proofs.ShiftParams
